@@ -10,6 +10,12 @@ R32.2 statement execution is wrapped: every conn.execute whose SQL evaluates exp
 R32.3 no bare Python exception on the execution path: (a) no `raise <builtin exception>` reachable from
       SQLTranspiler.transpile / execute_queries except triaged ones; (b) every AST node class has a visit_ method in the
       SQL transpiler's MRO or is consumed by its parent's handler, so NodeVisitor.generic_visit's bare Exception is unreachable
+R32.4 only the macros referenced by the transpiled queries are installed, plus those the load and fetch steps call themselves:
+      each macro called by SQL that io code builds (period normalisation while loading INPUTS, period representation while
+      fetching RESULTS) is added to the installed closure, and the condition under which it is added mentions only the
+      datasets of that step (a result can have a Time_Period column - cast, time_agg, … - when no input has a time column); the
+      format -> macro table of execute_queries equals the one of apply_time_period_representation.  Otherwise the step
+      fails with a raw CatalogException
 Not decided: which DuckDB errors can occur for well-typed inputs; the fall-through of _map_query_error for unknown messages
 (recorded as a known finding with a demonstrated input).
 """
@@ -52,35 +58,132 @@ def error_writers(P: Program) -> List[Tuple[str, str, str, int, str]]:
     return out
 
 
-def decision_list(P: Program, f: FuncInfo) -> List[Tuple[ast.AST, Optional[str], Optional[str], int]]:
-    """Ordered (condition, exception class, code, line) of the top-level `if` statements of a mapper function."""
-    out = []
-    for st in f.node.body:  # type: ignore[attr-defined]
-        if isinstance(st, ast.If):
-            rets = [n for n in ast.walk(st) if isinstance(n, ast.Return) and n.value is not None]
-            cls, code = None, None
-            for r in rets:
-                c = r.value
-                if isinstance(c, ast.Call):
-                    name = c.func.id if isinstance(c.func, ast.Name) else getattr(c.func, "attr", "")
-                    if name in VTL_EXC:
-                        cls = name
-                        a0 = c.args[0] if c.args else {k.arg: k.value for k in c.keywords}.get("code")
-                        vals = P.const_values(f, f.module, a0) if a0 is not None else None
-                        code = sorted(vals)[0] if vals else None
-                    else:
-                        for tq in P.resolve_call(f, c)[:1]:
-                            g = P.functions.get(tq)
-                            if g is not None:
-                                for r2 in ast.walk(g.node):
-                                    if isinstance(r2, ast.Return) and isinstance(r2.value, ast.Call):
-                                        n2 = r2.value.func.id if isinstance(r2.value.func, ast.Name) else ""
-                                        if n2 in VTL_EXC:
-                                            cls = n2
-                                            vals = P.const_values(g, g.module, r2.value.args[0]) if r2.value.args else None
-                                            code = sorted(vals)[0] if vals else None
-            out.append((st.test, cls, code, st.lineno))
+def _branch_result(P: Program, f: FuncInfo, st: ast.If) -> Tuple[Optional[str], Optional[str]]:
+    rets = [n for n in ast.walk(st) if isinstance(n, ast.Return) and n.value is not None]
+    cls, code = None, None
+    for r in rets:
+        c = r.value
+        if isinstance(c, ast.Call):
+            name = c.func.id if isinstance(c.func, ast.Name) else getattr(c.func, "attr", "")
+            if name in VTL_EXC:
+                cls = name
+                a0 = c.args[0] if c.args else {k.arg: k.value for k in c.keywords}.get("code")
+                vals = P.const_values(f, f.module, a0) if a0 is not None else None
+                code = sorted(vals)[0] if vals else None
+            else:
+                for tq in P.resolve_call(f, c)[:1]:
+                    g = P.functions.get(tq)
+                    if g is not None:
+                        for r2 in ast.walk(g.node):
+                            if isinstance(r2, ast.Return) and isinstance(r2.value, ast.Call):
+                                n2 = r2.value.func.id if isinstance(r2.value.func, ast.Name) else ""
+                                if n2 in VTL_EXC:
+                                    cls = n2
+                                    vals = P.const_values(g, g.module, r2.value.args[0]) if r2.value.args else None
+                                    code = sorted(vals)[0] if vals else None
+    return cls, code
+
+
+def _is_message_test(P: Program, cond: ast.AST) -> bool:
+    """a condition made only of substring tests on the (lower-cased) message"""
+    if isinstance(cond, ast.BoolOp):
+        return all(_is_message_test(P, v) for v in cond.values)
+    if isinstance(cond, ast.UnaryOp) and isinstance(cond.op, ast.Not):
+        return _is_message_test(P, cond.operand)
+    return isinstance(cond, ast.Compare) and len(cond.ops) == 1 and isinstance(cond.ops[0], (ast.In, ast.NotIn)) and isinstance(cond.left, ast.Constant) \
+        and isinstance(cond.left.value, str) and isinstance(cond.comparators[0], ast.Name) and cond.comparators[0].id.startswith("msg")
+
+
+Branch = Tuple[ast.AST, Optional[str], Optional[str], int, Tuple[Tuple[FuncInfo, ast.AST], ...]]
+
+
+def decision_list(P: Program, f: FuncInfo, guards: Tuple[Tuple[FuncInfo, ast.AST], ...] = (), depth: int = 0) -> List[Branch]:
+    """Ordered (message condition, exception class, code, line, guards) of a mapper function.  A branch is a top-level
+    `if <substring tests on the message>: return <VTL exception>`.  Followed: an enclosing `if G:` that is NOT a message test
+    (G becomes a guard of every branch inside it) and the helper idiom `x = helper(msg, …)` + `if x is not None: return x`
+    (the helper's own decision list is inlined at that position)."""
+    if depth > 3:
+        return []
+    out: List[Branch] = []
+
+    def block(body: List[ast.stmt], gs: Tuple[Tuple[FuncInfo, ast.AST], ...]) -> None:
+        pending: Dict[str, List[Branch]] = {}
+        for st in body:
+            if isinstance(st, (ast.Assign, ast.AnnAssign)) and isinstance(getattr(st, "value", None), ast.Call):
+                tgt = st.targets[0] if isinstance(st, ast.Assign) else st.target
+                tq = P.resolve_call(f, st.value)
+                if isinstance(tgt, ast.Name) and tq and tq[0] in P.functions and P.functions[tq[0]].module is f.module:
+                    pending[tgt.id] = decision_list(P, P.functions[tq[0]], gs, depth + 1)
+                continue
+            if not isinstance(st, ast.If):
+                continue
+            t = st.test
+            if isinstance(t, ast.Compare) and isinstance(t.left, ast.Name) and t.left.id in pending and len(t.ops) == 1 and isinstance(t.ops[0], ast.IsNot) \
+                    and any(isinstance(r, ast.Return) and isinstance(r.value, ast.Name) and r.value.id == t.left.id for r in st.body):
+                out.extend(pending.pop(t.left.id))
+                continue
+            if _is_message_test(P, t):
+                cls, code = _branch_result(P, f, st)
+                out.append((t, cls, code, st.lineno, gs))
+            else:
+                block(st.body, gs + ((f, t),))
+    block(f.node.body, guards)  # type: ignore[attr-defined]
     return out
+
+
+def guards_hold(P: Program, guards: Tuple[Tuple[FuncInfo, ast.AST], ...], sql_text: str) -> bool:
+    """evaluate the non-message guards of a branch (E6) for a failing statement whose text is `sql_text`"""
+    from sa.e6 import Interp, Raised, Unmodelled
+    for gf, g in guards:
+        it = Interp(P)
+        try:
+            v = it.eval(g, {"sql_query": sql_text, gf.params[1] if len(gf.params) > 1 else "sql_query": sql_text, "msg": "", "msg_lower": ""}, gf)
+        except (Unmodelled, Raised) as e:
+            raise AnalysisError(f"guard `{src(g)[:60]}` of {gf.qualname} is outside the evaluator's language: {e}")
+        if not it.truth(v):
+            return False
+    return True
+
+
+TH = "vtlengine.duckdb_transpiler.io._time_handling"
+
+
+def _repr_macros(P: Program) -> Dict[str, str]:
+    """TimePeriodRepresentation member -> macro name, from _time_handling._REPR_MACRO"""
+    m = P.module(TH)
+    node = m.assigns.get("_REPR_MACRO")
+    if not isinstance(node, ast.Dict):
+        raise AnalysisError(f"{TH}._REPR_MACRO is no longer a dict literal")
+    out = {}
+    for k, v in zip(node.keys, node.values):
+        if not (isinstance(v, ast.Constant) and isinstance(v.value, str)):
+            raise AnalysisError("_REPR_MACRO value is not a string constant")
+        out[src(k).split(".")[-1]] = v.value
+    return out
+
+
+def _macro_channels(P: Program) -> Tuple[Set[str], Set[str], str]:
+    """(macros that can fail while a result is FETCHED, macros that can fail while a statement runs, the statement text the
+    fetch site hands to the mapper)"""
+    macros = sqlx.load_macros(P)
+    seeds = set(_repr_macros(P).values())
+    fetch: Set[str] = set()
+    todo = [x for x in seeds if x in macros]
+    while todo:
+        x = todo.pop()
+        if x in fetch:
+            continue
+        fetch.add(x)
+        todo.extend(r for r in macros[x].refs() if r in macros and r not in fetch)
+    fr = P.func(f"{EXEC}.fetch_result")
+    arg = None
+    for n in ast.walk(fr.node):
+        if isinstance(n, ast.Call) and getattr(n.func, "id", "") == "_map_query_error" and len(n.args) > 1:
+            vals = P.const_values(fr, fr.module, n.args[1])
+            arg = sorted(vals)[0] if vals and len(vals) == 1 else 'UPDATE "t" SET "c" = ' + sorted(seeds)[0] + '("c")'
+    if arg is None:
+        raise AnalysisError("fetch_result no longer maps duckdb.Error through _map_query_error")
+    return fetch, set(macros), arg
 
 
 def holds(cond: ast.AST, text_lower: str) -> Optional[bool]:
@@ -113,7 +216,7 @@ def run(rep: Report, tier: str) -> None:
     mq = P.func(f"{EXEC}._map_query_error")
     dl = decision_list(P, mq)
     rep.floor("branches of _map_query_error", len(dl), 10)
-    for cond, cls, code, line in dl:
+    for cond, cls, code, line, _gs in dl:
         rep.instance("R32.1", f"branch@{src(cond)[:40]}", nontrivial=True, sample={"condition": src(cond)[:80], "returns": cls, "code": code})
         if cls is None or code is None:
             rep.add(Finding("R32.1", f"R32.1/branch-not-coded/{src(cond)[:40]}", mq.module.rel, line, mq.qualname,
@@ -121,6 +224,8 @@ def run(rep: Report, tier: str) -> None:
         elif code not in cat:
             rep.add(Finding("R32.1", f"R32.1/branch-code/{code}", mq.module.rel, line, mq.qualname, f"branch returns uncatalogued code {code}"))
     writers = error_writers(P)
+    fetch_macros, query_macros, fetch_sql_arg = _macro_channels(P)
+    failing_site = "statement execution"
     rep.floor("SQL error() writers", len(writers), 12)
     LOADER_SITES = ("vtlengine.duckdb_transpiler.io._io", "vtlengine.duckdb_transpiler.io._validation")
     for kind, text, file, line, where in writers:
@@ -132,16 +237,33 @@ def run(rep: Report, tier: str) -> None:
             rep.instance("R32.1", f"writer/{key}", nontrivial=True, sample={"writer": text[:60], "channel": "map_duckdb_error"})
             continue
         claimed = None
-        for cond, cls, code, bl in dl:
-            v = holds(cond, tl)
-            if v:
-                claimed = (cond, cls, code, bl)
+        # the text of the failing statement as the mapper sees it at the site that serves this writer: the fetch-time
+        # representation step passes "" (no statement text); statement execution passes the generated SQL, which contains
+        # the macro call / the error(...) expression itself
+        if kind == "macro" and where.split(":", 1)[-1] in fetch_macros:
+            site_texts = [("result fetching (apply_time_period_representation)", fetch_sql_arg)]
+        elif kind == "macro":
+            site_texts = [("statement execution", f"SELECT {where.split(':', 1)[-1]}(x) FROM t")]
+        else:
+            site_texts = [("statement execution", f"SELECT CASE WHEN c THEN error('{text}') END FROM t")]
+        if kind == "macro" and where.split(":", 1)[-1] in fetch_macros and where.split(":", 1)[-1] in query_macros:
+            site_texts.append(("statement execution", f"SELECT {where.split(':', 1)[-1]}(x) FROM t"))
+        for site_name, site_sql in site_texts:
+            hit = None
+            for cond, cls, code, bl, gs in dl:
+                if holds(cond, tl) and guards_hold(P, gs, site_sql):
+                    hit = (cond, cls, code, bl)
+                    break
+            if hit is None:
+                claimed = None
+                failing_site = site_name
                 break
+            claimed = hit
         rep.instance("R32.1", f"writer/{key}", nontrivial=True,
                      sample={"writer": text[:70], "where": where, "claimed_by": src(claimed[0])[:60] if claimed else None, "code": claimed[2] if claimed else None})
         if claimed is None:
             rep.add(Finding("R32.1", f"R32.1/unclaimed/{where}/{(mcode.group(1) if mcode else text[:24])}", file, line, where,
-                            f"error('{text[:70]}…') raised by {where} is matched by no branch of _map_query_error: the raw duckdb error escapes run()"))
+                            f"error('{text[:70]}…') raised by {where} is matched by no branch of _map_query_error when it fails during {failing_site}: the raw duckdb error escapes run()"))
         elif mcode and claimed[2] != mcode.group(1):
             rep.add(Finding("R32.1", f"R32.1/wrong-branch/{mcode.group(1)}", mq.module.rel, claimed[3], mq.qualname,
                             f"error text naming {mcode.group(1)} ({where}) is caught first by branch `{src(claimed[0])[:50]}` which returns "
@@ -218,6 +340,10 @@ def run(rep: Report, tier: str) -> None:
                         "_map_query_error returns the original duckdb error when no pattern matches and the caller re-raises it: any DuckDB "
                         "runtime error without a pattern (e.g. sqrt of a negative number → OutOfRangeException) escapes raw"))
 
+    # ---- R32.4 macros used outside the transpiled queries are installed whenever their use site can run ----------
+    rep.rule("R32.4", "macros called by the load / fetch steps are installed under a condition on the datasets those steps work on")
+    _macro_availability(P, rep, cg)
+
     # ---- R32.3 ---------------------------------------------------------------------------------------------
     roots = [f"{TR}.transpile", f"{EXEC}.execute_queries"]
     reach2 = cg.reachable_from([r for r in roots if r in P.functions])
@@ -290,3 +416,125 @@ NODE_CONSUMED_BY_PARENT: Dict[str, str] = {
     "ComponentType": "type annotation inside operator signatures; never dispatched by the SQL transpiler",
     "DatasetType": "type annotation inside operator signatures; never dispatched by the SQL transpiler",
 }
+
+
+def _macro_availability(P: Program, rep: Report, cg) -> None:  # noqa: C901
+    eq = P.func(f"{EXEC}.execute_queries")
+    # (1) what execute_queries adds to the closure, and under which conditions
+    init_calls = [n for n in ast.walk(eq.node) if isinstance(n, ast.Call) and getattr(n.func, "id", "") == "initialize_time_types"]
+    if len(init_calls) != 1:
+        raise AnalysisError("execute_queries: exactly one initialize_time_types(...) call expected")
+    frag_kw = {k.arg: k.value for k in init_calls[0].keywords}.get("sql_fragments")
+    if frag_kw is None:
+        rep.instance("R32.4", "all-macros-installed", sample="initialize_time_types is called without a fragment list: every macro is installed")
+        return
+    if not isinstance(frag_kw, ast.Name):
+        raise AnalysisError("execute_queries: sql_fragments is not a local list variable")
+    lst = frag_kw.id
+    params = set(eq.params)
+    added: Dict[str, Set[str]] = {}  # macro name -> parameters mentioned by the enclosing conditions (union over its add sites: each site listed)
+    sites: List[Tuple[str, Set[str], int]] = []
+
+    def walk(body: List[ast.stmt], conds: Tuple[ast.AST, ...]) -> None:
+        for st in body:
+            if isinstance(st, ast.If):
+                walk(st.body, conds + (st.test,))
+                walk(st.orelse, conds + (st.test,))
+                continue
+            if isinstance(st, (ast.For, ast.While, ast.With, ast.Try)):
+                for fld in ("body", "orelse", "finalbody"):
+                    walk(getattr(st, fld, []) or [], conds)
+                continue
+            for n in ast.walk(st):
+                if isinstance(n, ast.Call) and isinstance(n.func, ast.Attribute) and n.func.attr in ("append", "extend") and src(n.func.value) == lst and n.args:
+                    names = _const_strings(P, eq, n.args[0])
+                    mentioned = {x.id for c in conds for x in ast.walk(c) if isinstance(x, ast.Name) and x.id in params}
+                    for nm in names:
+                        sites.append((nm, mentioned, n.lineno))
+    walk(eq.node.body, ())  # type: ignore[attr-defined]
+    for nm, mentioned, _ln in sites:
+        added.setdefault(nm, set())
+    # (2) use sites outside the queries: SQL skeletons of the io package that call a vtl_ macro, and the representation table
+    reach_fetch = cg.reachable_from([f"{EXEC}.fetch_result"])
+    reach_load = cg.reachable_from([q for q in (f"{EXEC}.load_scheduled_datasets",) if q in P.functions])
+    uses: List[Tuple[str, str, str, int, str]] = []  # macro, step, file, line, where
+    for sk in sqlx.iter_skeletons(P):
+        if sk.func is None or not sk.module.name.startswith("vtlengine.duckdb_transpiler.io"):
+            continue
+        for mname in sorted(set(re.findall(r"\b(vtl_\w+)\s*\(", sk.text))):
+            step = "fetch" if sk.func.qualname in reach_fetch else "load" if sk.func.qualname in reach_load else None
+            if step:
+                uses.append((mname, step, sk.module.rel, sk.line, sk.func.qualname))
+    rm = _repr_macros(P)
+    th = P.module(TH)
+    ar = P.func(f"{TH}.apply_time_period_representation")
+    if ar.qualname not in reach_fetch:
+        raise AnalysisError("apply_time_period_representation is no longer reached from fetch_result")
+    for member, mname in sorted(rm.items()):
+        uses.append((mname, "fetch", th.rel, ar.node.lineno, f"{ar.qualname} (_REPR_MACRO[{member}])"))
+    rep.floor("R32.4 macro use sites outside the transpiled queries", len(uses), 5)
+    ALLOWED = {"fetch": {"output_datasets", "output_scalars", "time_period_output_format"}, "load": {"input_datasets", "path_dict", "dataframe_dict"}}
+    STEP_TXT = {"fetch": "while a RESULT is fetched", "load": "while an INPUT is loaded"}
+    for mname, step, file, line, where in uses:
+        my_sites = [(m_, l_) for n_, m_, l_ in sites if n_ == mname]
+        rep.instance("R32.4", f"{step}/{mname}/{where.split('.')[-1][:40]}", sample={"macro": mname, "used by": where, "added under conditions on": [sorted(m_) for m_, _l in my_sites]})
+        if not my_sites:
+            rep.add(Finding("R32.4", f"R32.4/not-installed/{mname}", eq.module.rel, init_calls[0].lineno, eq.qualname,
+                            f"macro {mname} is called {STEP_TXT[step]} ({where}) but execute_queries never adds it to the installed closure: a script whose statements do not mention it "
+                            f"fails with a raw CatalogException"))
+            continue
+        if not any(m_ <= ALLOWED[step] for m_, _l in my_sites):
+            m_, l_ = my_sites[0]
+            rep.add(Finding("R32.4", f"R32.4/wrong-condition/{mname}", eq.module.rel, l_, eq.qualname,
+                            f"macro {mname} is called {STEP_TXT[step]} ({where}) but is only installed under a condition on {sorted(m_ - ALLOWED[step])}: "
+                            + ("a result can have a time column that no input has (cast(…, time_period), time_agg, period literals), and then the fetch-time UPDATE fails with a raw CatalogException"
+                               if step == "fetch" else "an input with a time column is then normalised with a macro that was not installed")))
+    # (3) the two format -> macro tables agree
+    table = None
+    for n in ast.walk(eq.node):
+        if isinstance(n, ast.Dict) and n.values and all(isinstance(v, ast.Constant) and isinstance(v.value, str) and v.value.startswith("vtl_") for v in n.values):
+            table = {k.value if isinstance(k, ast.Constant) else src(k): v.value for k, v in zip(n.keys, n.values)}  # type: ignore[union-attr]
+    if table is not None:
+        enum_vals = _enum_values(P, "vtlengine.Model.TimePeriodRepresentation") if hasattr(P, "classes") else {}
+        for member, mname in sorted(rm.items()):
+            fmt = enum_vals.get(member)
+            rep.instance("R32.4", f"table/{member}", sample={"format": fmt, "fetch uses": mname, "installed": table.get(fmt)})
+            if fmt is not None and table.get(fmt) != mname:
+                rep.add(Finding("R32.4", f"R32.4/table/{member}", eq.module.rel, eq.node.lineno, eq.qualname,
+                                f"output format {fmt!r}: the fetch step calls {mname} but execute_queries installs {table.get(fmt)!r} for it"))
+
+
+def _const_strings(P: Program, f: FuncInfo, e: ast.AST) -> Set[str]:
+    """string constants an expression can evaluate to (constant, local variable bound once to a constant / dict.get over a literal dict)"""
+    if isinstance(e, ast.Constant) and isinstance(e.value, str):
+        return {e.value}
+    if isinstance(e, ast.Name):
+        out: Set[str] = set()
+        for n in ast.walk(f.node):
+            if isinstance(n, ast.Assign) and any(isinstance(t, ast.Name) and t.id == e.id for t in n.targets):
+                out |= _const_strings(P, f, n.value)
+        return out
+    if isinstance(e, ast.Call) and isinstance(e.func, ast.Attribute) and e.func.attr == "get" and isinstance(e.func.value, ast.Dict):
+        out2 = {v.value for v in e.func.value.values if isinstance(v, ast.Constant) and isinstance(v.value, str)}
+        for a in e.args[1:]:
+            out2 |= _const_strings(P, f, a)
+        return out2
+    if isinstance(e, ast.Subscript) and isinstance(e.value, ast.Dict):
+        return {v.value for v in e.value.values if isinstance(v, ast.Constant) and isinstance(v.value, str)}
+    if isinstance(e, (ast.List, ast.Tuple)):
+        out3: Set[str] = set()
+        for x in e.elts:
+            out3 |= _const_strings(P, f, x)
+        return out3
+    return set()
+
+
+def _enum_values(P: Program, cq: str) -> Dict[str, str]:
+    ci = P.classes.get(cq)
+    out: Dict[str, str] = {}
+    if ci is None:
+        return out
+    for st in ci.node.body:
+        if isinstance(st, ast.Assign) and isinstance(st.targets[0], ast.Name) and isinstance(st.value, ast.Constant) and isinstance(st.value.value, str):
+            out[st.targets[0].id] = st.value.value
+    return out
